@@ -1,6 +1,6 @@
 (* C07 -- Totality.  ONLY property theorems here.  The general statement over the whole pipeline is NOT a theorem:
    tree-sitter, the CST->AST layer and the renderer are outside any Gallina model (see DESIGN.md section 8). *)
-From QV Require Import model.Base model.Lang model.Types model.Tir model.Builder model.Passes model.TirCase gen.GenE0 proofs.InterpProofs proofs.BuilderSafe.
+From QV Require Import model.Base model.Lang model.Types model.Tir model.Builder model.Passes model.TirCase gen.GenE0 proofs.InterpProofs proofs.BuilderSafe proofs.BuilderSafeStmt.
 
 (* the constant interpreter terminates on EVERY code body, well-formed or not *)
 Theorem C07_interp_total : forall E c, evaluate_code E c <> OutOfFuel.
@@ -20,6 +20,17 @@ Proof.
   destruct (walk_expr E env e s) as [[a| |x] s']; tauto.
 Qed.
 Print Assumptions C07_expressions_never_panic.
+(* ... and so do statements: blocks, declarations, if / else, return, break, expression statements in any nesting (every statement form but
+   switch, whose positional label arithmetic is not covered by this theorem).  The environment handed on names existing locals only. *)
+Theorem C07_switch_free_statements_never_panic : forall E s, noswitch s = true -> forall env brk st,
+  Good st -> envwf (nloc st) env ->
+  match walk_stmt E env brk s st with
+  | (P _, _) => False
+  | (V (ok, env'), st') => RegB (nb st) st st' /\ envwf (nloc st') env'
+  | (F, st') => RegB (nb st) st st'
+  end.
+Proof. intros E s Hs env brk st G Hw. exact (walk_stmt_safe_noswitch E s Hs env brk st (nb st) G Hw (le_n _)). Qed.
+Print Assumptions C07_switch_free_statements_never_panic.
 (* the initial builder state is such a state *)
 Example C07_initial_state_good : Good bstate0.
 Proof. split; [apply le_n|]. exists block0. split; reflexivity. Qed.
